@@ -40,8 +40,16 @@ use std::{
         Arc,
     },
     task::{Context, Poll, Waker},
-    time::{Duration, Instant},
+    time::Duration,
 };
+
+// The keep-alive tracker's clock: the real one, or the harness-driven virtual clock under feature `verif`.
+#[cfg(feature = "verif")]
+use crate::verif_clock::{sleep as keep_alive_sleep, Instant};
+#[cfg(not(feature = "verif"))]
+use std::time::Instant;
+#[cfg(not(feature = "verif"))]
+use tokio::time::sleep as keep_alive_sleep;
 
 /// Logging target for the file.
 const LOG_TARGET: &str = "litep2p::transport-service";
@@ -169,7 +177,7 @@ impl KeepAliveTracker {
             // Refill futures if there is no pending keep-alive timeout.
             let timeout = self.keep_alive_timeout;
             self.pending_keep_alive_timeouts.push(Box::pin(async move {
-                tokio::time::sleep(timeout).await;
+                keep_alive_sleep(timeout).await;
                 (peer, connection_id)
             }));
         }
@@ -234,7 +242,7 @@ impl Stream for KeepAliveTracker {
 
                     // Refill the keep alive timeouts.
                     self.pending_keep_alive_timeouts.push(Box::pin(async move {
-                        tokio::time::sleep(timeout).await;
+                        keep_alive_sleep(timeout).await;
                         key
                     }));
 
@@ -1777,6 +1785,52 @@ pub mod verif_hooks {
             Ok(crate::protocol::ProtocolCommand::OpenSubstream { substream_id, connection_id, .. }) => Some((substream_id, connection_id)),
             _ => None,
         }
+    }
+
+    /// A service with a chosen keep-alive timeout and keep-alive class (for the keep-alive kernel).
+    pub fn new_service_with(
+        manager: &mut crate::transport::manager::TransportManager,
+        keep_alive_timeout: Duration,
+        substream_keep_alive: bool,
+    ) -> TransportService {
+        TransportService::new(
+            PeerId::random(),
+            ProtocolName::from("/verif/keepalive"),
+            Vec::new(),
+            Default::default(),
+            manager.transport_manager_handle(),
+            keep_alive_timeout,
+            if substream_keep_alive { SubstreamKeepAlive::Yes } else { SubstreamKeepAlive::No },
+        )
+        .0
+    }
+
+    /// Whether this protocol's handles of the peer's connections are active: (primary, secondary).
+    pub fn connections_active(service: &TransportService, peer: &PeerId) -> Option<(bool, Option<bool>)> {
+        service
+            .connections
+            .get(peer)
+            .map(|context| (context.primary.is_active(), context.secondary.as_ref().map(|handle| handle.is_active())))
+    }
+
+    /// Poll the service (the protocol's event loop does this): returns the number of events it produced before `Pending`.
+    pub fn poll_service(service: &mut TransportService) -> usize {
+        use futures::Stream;
+        use std::task::{RawWaker, RawWakerVTable};
+        fn clone(_: *const ()) -> RawWaker { RawWaker::new(std::ptr::null(), &VTABLE) }
+        fn noop(_: *const ()) {}
+        static VTABLE: RawWakerVTable = RawWakerVTable::new(clone, noop, noop, noop);
+        let waker = unsafe { Waker::from_raw(RawWaker::new(std::ptr::null(), &VTABLE)) };
+        let mut cx = Context::from_waker(&waker);
+        // the tracker asks to be polled again after it re-arms a timer: a few polls stand for those wake-ups
+        let mut events = 0;
+        for _ in 0..4 {
+            while let Poll::Ready(Some(_)) = Pin::new(&mut *service).poll_next(&mut cx) {
+                events += 1;
+                if events > 16 { break; }
+            }
+        }
+        events
     }
 
     /// The effect of an expired keep-alive timer of this protocol: the connection is downgraded.
